@@ -55,7 +55,7 @@ pub fn make_env(cfg: &Cfg) -> Env {
             }
         }
     }
-    Env { host_bins, shim: cfg.build_dir.join("simhost.so"), aslr_off: true, fs_dir: cfg.build_dir.join("simfs") }
+    Env { host_bins, shim: cfg.build_dir.join("simhost.so"), aslr_off: ASLR_OFF.load(Ordering::SeqCst) == 1, fs_dir: cfg.build_dir.join("simfs") }
 }
 
 // ---------------------------------------------------------------- statistics
@@ -838,7 +838,7 @@ fn cmd_run(cfg: &Cfg) -> i32 {
             "inputs": total.inputs, "order_sensitive_inputs": total.order_sensitive_inputs,
             "inputs_per_class": total.per_class_inputs, "reference_verdicts": total.verdicts,
             "max_o2o_diagnostics_in_one_input": total.max_errors_in_one_input, "max_impls_in_one_input": total.max_impls_in_one_input,
-            "corpus": {"items": corpus.items.len(), "files": corpus.files, "from_o2o_tests": corpus.from_tests_dir, "from_unit_tests": corpus.from_unit_tests},
+            "corpus": {"items": corpus.items.len(), "files": corpus.files, "from_o2o_tests": corpus.from_tests_dir, "from_unit_tests": corpus.from_unit_tests, "from_readme_and_doc_comments": corpus.from_docs},
             "faults": {
                 "enabled_in_worlds": total.fault_enabled_worlds,
                 "fired_on_hosts": total.fault_fired_hosts,
@@ -867,6 +867,7 @@ fn cmd_run(cfg: &Cfg) -> i32 {
                 "rustc_tier": "real cargo + rustc + o2o-macros dylib under the same shim (thorough tier)",
             },
             "harness_determinism_guard": {"worlds_executed_twice": guard_worlds, "result": guard_note},
+            "aslr_disabled_for_hosts": env.aslr_off,
             "rustc_tier": rustc_tier_json,
             "divergent_worlds": n_div,
             "replays": reports.iter().map(|r| json!({"path": r.path.to_string_lossy(), "signature": r.signature})).collect::<Vec<_>>(),
@@ -926,7 +927,12 @@ fn cmd_selftest(cfg: &Cfg) -> i32 {
     }
 }
 
+static ASLR_OFF: AtomicUsize = AtomicUsize::new(0);
+
 fn main() {
+    if plan::disable_aslr_for_children() {
+        ASLR_OFF.store(1, Ordering::SeqCst);
+    }
     let args: Vec<String> = std::env::args().collect();
     let cmd = args.get(1).map(|s| s.as_str()).unwrap_or("run");
     let mut cfg = Cfg {
@@ -1075,7 +1081,7 @@ fn main() {
             let c = corpus::load(&cfg.repo);
             let mut rng = Rng::new(cfg.seed);
             for k in 0..cfg.worlds.min(60) {
-                let class = gen::CLASSES[k % 6];
+                let class = gen::CLASSES[k % 7];
                 let it = gen::generate(&mut rng, &c, class);
                 println!("---- {}\n{}", it.origin, it.render());
             }
